@@ -34,6 +34,13 @@ func Backup() {
 	sh := kit.ChooseShape()
 	l := kit.Gen(sh, true, true)
 	l.MonotoneTimes()
+	if vrt.Choose("rmindex", 2) == 1 {
+		// the source was reopened after its index files were removed (they are derived data)
+		for i := range l.Segs {
+			l.Segs[i].Index = false
+		}
+		vrt.Reach("source-without-index-files")
+	}
 	l.Build("d")
 	dst := vrt.Dir("b")
 	live := l.Live()
@@ -67,17 +74,21 @@ func Backup() {
 				return
 			}
 		}
-		us := vrt.Int64("pus")
-		if len(want) > 0 {
-			vrt.Assume(us >= want[len(want)-1].Us)
+		// one or two Publish calls between two backups (a segment may grow and then be sealed)
+		pubs := 1 + vrt.Choose("pubs", vrt.Bound("pubs", 2))
+		for pi := 0; pi < pubs; pi++ {
+			us := vrt.Int64("pus")
+			if len(want) > 0 {
+				vrt.Assume(us >= want[len(want)-1].Us)
+			}
+			vrt.Assume(us >= 0)
+			msgs := []klevdb.Message{{Time: time.UnixMicro(us), Key: vrt.Bytes("pkey", 1), Value: vrt.Bytes("pval", 1)}}
+			vrt.Assume(!msgs[0].Time.IsZero())
+			n, err := lg.Publish(msgs)
+			vrt.Assert(err == nil && n == next+1, "Publish on the source")
+			want = append(want, kit.Rec{Off: next, Us: us, Key: msgs[0].Key, Val: msgs[0].Value})
+			next++
 		}
-		vrt.Assume(us >= 0)
-		msgs := []klevdb.Message{{Time: time.UnixMicro(us), Key: vrt.Bytes("pkey", 1), Value: vrt.Bytes("pval", 1)}}
-		vrt.Assume(!msgs[0].Time.IsZero())
-		n, err := lg.Publish(msgs)
-		vrt.Assert(err == nil && n == next+1, "Publish on the source")
-		want = append(want, kit.Rec{Off: next, Us: us, Key: msgs[0].Key, Val: msgs[0].Value})
-		next++
 		if viaLog {
 			vrt.Assert(lg.Backup(dst) == nil, "repeated Log.Backup succeeds")
 		} else {
